@@ -4,21 +4,21 @@
 # (vacuity guard: a unit that silently extracts nothing cannot pass).
 UNITS = {
     'quorum': {'template': 'units/quorum/unit.rs', 'serves': ['C03', 'C06', 'C09'], 'min_verified': 30},
-    'finality': {'template': 'units/finality/unit.rs', 'serves': ['C08', 'C10', 'C07'], 'min_verified': 32},
+    'finality': {'template': 'units/finality/unit.rs', 'serves': ['C08', 'C10', 'C07'], 'min_verified': 36},
     'merkle': {'template': 'units/merkle/unit.rs', 'serves': ['C15'], 'min_verified': 45},
     'validated': {'template': 'units/validated/unit.rs', 'serves': ['C09', 'C10', 'C03'], 'min_verified': 84},
     'shred_auth': {'template': 'units/shred_auth/unit.rs', 'serves': ['C12'], 'min_verified': 22},
     'rs_codec': {'template': 'units/rs_codec/unit.rs', 'serves': ['C11', 'C13'], 'min_verified': 34},
     'wire': {'template': 'units/wire/unit.rs', 'serves': ['C19', 'C10'], 'min_verified': 31},
-    'pool': {'template': 'units/pool/unit.rs', 'serves': ['C04', 'C08', 'C18', 'C03', 'C10', 'C06'], 'min_verified': 106},
-    'blockdata': {'template': 'units/blockdata/unit.rs', 'serves': ['C13', 'C10', 'C12', 'C14'], 'min_verified': 51},
+    'pool': {'template': 'units/pool/unit.rs', 'serves': ['C04', 'C08', 'C18', 'C03', 'C10', 'C06'], 'min_verified': 112},
+    'blockdata': {'template': 'units/blockdata/unit.rs', 'serves': ['C13', 'C10', 'C12', 'C14'], 'min_verified': 59},
     'routing': {'template': 'units/routing/unit.rs', 'serves': ['C16'], 'min_verified': 65},
     'votor': {'template': 'units/votor/unit.rs', 'serves': ['C05', 'C18'], 'min_verified': 60},
     'parent_ready': {'template': 'units/parent_ready/unit.rs', 'serves': ['C07'], 'min_verified': 64},
-    'repair': {'template': 'units/repair/unit.rs', 'serves': ['C14', 'C15', 'C10'], 'min_verified': 28},
+    'repair': {'template': 'units/repair/unit.rs', 'serves': ['C14', 'C15', 'C10'], 'min_verified': 30},
     'producer': {'template': 'units/producer/unit.rs', 'serves': ['C10'], 'min_verified': 24},
     'deshred': {'template': 'units/deshred/unit.rs', 'serves': ['C11', 'C13'], 'min_verified': 12},
-    'ingest': {'template': 'units/ingest/unit.rs', 'serves': ['C12', 'C13', 'C16', 'C14'], 'min_verified': 10},
+    'ingest': {'template': 'units/ingest/unit.rs', 'serves': ['C12', 'C13', 'C16', 'C14'], 'min_verified': 20},
     'sampler': {'template': 'units/sampler/unit.rs', 'serves': ['C17', 'C16'], 'min_verified': 38},
     'engine': {'template': 'units/engine/unit.rs', 'serves': ['C20'], 'min_verified': 18},
     'trie': {'template': 'units/trie/unit.rs', 'serves': ['C20'], 'min_verified': 95},
